@@ -50,6 +50,9 @@ impl CommodityStore {
             forall|n: Seq<char>| old(self).is_alias(n) ==> final(self).is_alias(n),
             forall|n: Seq<char>| old(self).is_canonical(n) ==> final(self).is_canonical(n),
             forall|h: Commodity| old(self).registered(h) ==> final(self).registered(h),
+            // frame (group `intern`: records' == records.insert(value, None)): no other name changes its status
+            forall|n: Seq<char>| n != value@ ==> final(self).is_canonical(n) == old(self).is_canonical(n),
+            forall|n: Seq<char>| final(self).is_alias(n) ==> old(self).is_alias(n),
     { unimplemented!() }
     // InternStore::insert_alias: Err(AlreadyCanonical) iff the name is canonical (table unchanged); a new name becomes an alias of `canonical`
     #[verifier::external_body]
@@ -63,6 +66,9 @@ impl CommodityStore {
             forall|n: Seq<char>| old(self).is_alias(n) ==> final(self).is_alias(n),
             forall|n: Seq<char>| old(self).is_canonical(n) ==> final(self).is_canonical(n),
             forall|h: Commodity| old(self).registered(h) ==> final(self).registered(h),
+            // frame (group `intern`: records' == records or records.insert(value, Some(canonical))): no other name changes its status
+            forall|n: Seq<char>| final(self).is_canonical(n) ==> old(self).is_canonical(n),
+            forall|n: Seq<char>| n != value@ ==> final(self).is_alias(n) == old(self).is_alias(n),
             forall|h: Commodity| final(self).dp(h) == old(self).dp(h),   // the intern table and the format table are separate fields
     { unimplemented!() }
     /// CommodityStore::set_format: `formatting.insert(commodity, format)`; get_decimal_point reads `formatting[c].scale()`
@@ -91,6 +97,9 @@ impl AccountStore {
             forall|n: Seq<char>| old(self).is_alias(n) ==> final(self).is_alias(n),
             forall|n: Seq<char>| old(self).is_canonical(n) ==> final(self).is_canonical(n),
             forall|h: Account| old(self).registered(h) ==> final(self).registered(h),
+            // frame (group `intern`: records' == records.insert(value, None)): no other name changes its status
+            forall|n: Seq<char>| n != value@ ==> final(self).is_canonical(n) == old(self).is_canonical(n),
+            forall|n: Seq<char>| final(self).is_alias(n) ==> old(self).is_alias(n),
     { unimplemented!() }
     #[verifier::external_body]
     pub fn insert_alias(&mut self, value: &str, canonical: Account) -> (r: Result<(), u8>)
@@ -103,8 +112,15 @@ impl AccountStore {
             forall|n: Seq<char>| old(self).is_alias(n) ==> final(self).is_alias(n),
             forall|n: Seq<char>| old(self).is_canonical(n) ==> final(self).is_canonical(n),
             forall|h: Account| old(self).registered(h) ==> final(self).registered(h),
+            // frame (group `intern`: records' == records or records.insert(value, Some(canonical))): no other name changes its status
+            forall|n: Seq<char>| final(self).is_canonical(n) ==> old(self).is_canonical(n),
+            forall|n: Seq<char>| n != value@ ==> final(self).is_alias(n) == old(self).is_alias(n),
     { unimplemented!() }
     pub uninterp spec fn resolved(&self, name: Seq<char>) -> Option<Account>;
+    #[verifier::external_body]
+    pub fn resolve(&self, value: &str) -> (r: Option<Account>)
+        ensures r == self.resolved(value@)
+    { unimplemented!() }
     #[verifier::external_body]
     pub fn ensure(&mut self, value: &str) -> (r: Account)
         ensures
